@@ -148,6 +148,37 @@ pub async fn full_compare(coll: &Collection, model: &DocModel, idx: Idx, probe_i
         }
     }
 
+    if idx.opt_opt2 {
+        // composite key re-derived independently: the canonical CBOR of each
+        // component in order, an absent / null component encoded as CBOR null
+        // (values here are < 24, i.e. one byte each)
+        fn enc(v: Option<u64>) -> u8 {
+            match v {
+                Some(x) => {
+                    assert!(x < 24);
+                    x as u8
+                }
+                None => 0xf6,
+            }
+        }
+        for (id, d) in &model.docs {
+            let want: Vec<u64> = model
+                .docs
+                .iter()
+                .filter(|(_, x)| x.opt == d.opt && x.opt2 == d.opt2)
+                .map(|(i, _)| *i)
+                .collect();
+            let key = Fv::Bytes(vec![enc(d.opt), enc(d.opt2)]);
+            match coll
+                .query_all_ids(Filter::Field(("opt-opt2".to_string(), RangeQuery::Eq(key))))
+                .await
+            {
+                Ok(got) if got == want => {}
+                other => bad.push(format!("btree opt-opt2 Eq(tuple of {id}) = {other:?}, model {want:?}")),
+            }
+        }
+    }
+
     // --- BM25
     if idx.body {
         match coll.get_bm25_index(&["body"]) {
